@@ -344,17 +344,31 @@ func TestThirdParty(t *testing.T) {
 		})
 	})
 	t.Run("repofiles", func(t *testing.T) {
-		for i, rf := range repoFiles {
-			if i%harness.E.NShards != harness.E.Shard {
-				continue
+		k := 0
+		for _, rf0 := range repoFiles {
+			for _, variant := range repoVariants {
+				k++
+				if k%harness.E.NShards != harness.E.Shard {
+					continue
+				}
+				rf := rf0
+				rf.Variant = variant
+				var st repoStats
+				f := harness.Guarded(func() *harness.Fail { return evalRepoFile(rf, &st) })
+				if st.notApplicable {
+					harness.Rec.CaseDistinct(false, "3p-repo-file-variant-not-applicable")
+					continue
+				}
+				v := variant
+				if v == "" {
+					v = "as-is"
+				}
+				harness.Rec.CaseDistinct(st.protected > 0, "3p-repo-file", "3p-repo-file-"+rf.Scheme, "3p-repo-file-variant-"+v)
+				harness.Rec.ClassN("3p-repo-file-samples", int64(st.samples))
+				harness.ReportDirect(t, "crypt3pfile", rf, f)
 			}
-			var st repoStats
-			f := harness.Guarded(func() *harness.Fail { return evalRepoFile(rf, &st) })
-			harness.Rec.CaseDistinct(st.protected > 0, "3p-repo-file", "3p-repo-file-"+rf.Scheme)
-			harness.Rec.ClassN("3p-repo-file-samples", int64(st.samples))
-			harness.ReportDirect(t, "crypt3pfile", rf, f)
 		}
-		harness.Rec.Exhaustive("encrypted files of the repository test data (5)")
+		harness.Rec.Exhaustive("encrypted files of the repository test data (5) x meaning-preserving rewrites (as is, trex boxes reversed, pssh box inserted into every moof, both)")
 	})
 }
 
@@ -366,6 +380,8 @@ type repoFileCase struct {
 	Init   string `json:"init,omitempty"`
 	Key    string `json:"key"`
 	Scheme string `json:"scheme"` // cenc | cbcs | piff
+	// Variant: a meaning-preserving rewrite applied to the file first (variants_test.go)
+	Variant string `json:"variant,omitempty"`
 }
 
 // keys as documented in cmd/mp4ff-decrypt/main_test.go
@@ -378,7 +394,10 @@ var repoFiles = []repoFileCase{
 	{File: "cmd/mp4ff-decrypt/testdata/PIFF/video/complseg-1.0001.mp4", Key: "602a9289bfb9b1995b75ac63f123fc86", Scheme: "piff"},
 }
 
-type repoStats struct{ samples, protected int }
+type repoStats struct {
+	samples, protected int
+	notApplicable      bool
+}
 
 func unhex(s string) []byte {
 	var h harness.HexBytes
@@ -397,6 +416,15 @@ func evalRepoFile(c repoFileCase, st *repoStats) *harness.Fail {
 	enc, err := os.ReadFile(filepath.Join(harness.E.RepoDir, c.File))
 	if err != nil {
 		return harness.Failf("harness|repo file", "%v", err)
+	}
+	if c.Variant != "" {
+		var ok bool
+		if enc, ok, err = applyVariant(enc, c.Variant); err != nil {
+			return harness.Failf("harness|repo file variant", "%s: %v", c.Variant, err)
+		} else if !ok {
+			st.notApplicable = true
+			return nil
+		}
 	}
 	key := unhex(c.Key)
 	var initBytes []byte
